@@ -132,4 +132,7 @@ __CPROVER_ensures((ARGS_OK && g.rf_calls == 1 && g.rf_ret == ECONF_SUCCESS) ==>
 __CPROVER_ensures(!ARGS_OK ==> (g.rf_calls == 0 && g.cb_calls == 0))
 __CPROVER_ensures(g.rf_calls == 0 ==> (g.free_calls == 0 && (key_file == NULL || *key_file == g.obj)))
 __CPROVER_ensures((__CPROVER_return_value == ECONF_SUCCESS) == (g.rf_calls == 1 && g.rf_ret == ECONF_SUCCESS))
+/* C07: the object remembers the first comment character it was read with ('#' when none was given) */
+__CPROVER_ensures((ARGS_OK && g.rf_calls == 1 && g.rf_ret == ECONF_SUCCESS) ==>
+                  (*key_file)->comment == (comment[0] ? comment[0] : '#'))
 ;
